@@ -20,7 +20,7 @@ for i,m in enumerate(muts):
         cfg.setdefault('transforms',[]).append({"file":m['file'],"old":m['old'],"new":m['new']})
         json.dump(cfg,open(f'{V}/harness/{name}.json','w'))
         t0=time.time()
-        p=subprocess.run([V+'/bin/gosmt','check',name,'quick','-noreplay'],capture_output=True,text=True,timeout=1800)
+        p=subprocess.run([V+'/bin/gosmt','check',name,'quick','-noreplay']+(['-j',os.environ['MUT_J']] if os.environ.get('MUT_J') else []),capture_output=True,text=True,timeout=1800)
         dt=time.time()-t0
         out=p.stdout
         os.remove(f'{V}/harness/{name}.json')
@@ -35,5 +35,5 @@ for i,m in enumerate(muts):
     status='KILLED' if killed_by else 'SURVIVED'
     print(f"[{i}] {m['prop']} {status} :: {m['note']} :: {killed_by or '; '.join(notes)}",flush=True)
     res.append({"index":i,"prop":m['prop'],"note":m['note'],"status":status,"by":killed_by,"notes":notes})
-json.dump(res,open(V+'/tools/mutants_result.json','w'),indent=1)
+json.dump(res,open(V+'/tools/mutants_result'+('_'+'_'.join(sel) if sel else '')+'.json','w'),indent=1)
 print(sum(r['status']=='KILLED' for r in res),'/',len(res),'killed')
